@@ -247,6 +247,10 @@ func drawCase(t *rapid.T) caseT {
 			op.Repo = withLabels[pick(t, "target_withlabels", len(withLabels))]
 		}
 		switch op.Kind {
+		case "delrepo":
+			if pick(t, "delrepo_fault", 4) == 0 {
+				op.FaultNth = 1 + pick(t, "delrepo_fault_nth", 8)
+			}
 		case "rename":
 			op.New = pickName("newname", 25)
 			if pick(t, "rename_fault", 4) == 0 {
@@ -739,7 +743,26 @@ func (r *runner) runOp(op opSpec) error {
 	case "delrepo":
 		what = fmt.Sprintf("DeleteRepo(%q)", op.Repo)
 		expectOK = exists
-		err = core.DeleteRepo(op.Repo, r.stores)
+		if op.FaultNth > 0 && exists {
+			// one delete of the operation is refused by the store: the operation may fail; run again it must finish
+			fv := r.env.Actor("deleter")
+			mf1 := &memstore.Fault{Op: memstore.OpDelete, Nth: op.FaultNth, Times: 1}
+			mf2 := &memstore.Fault{Op: memstore.OpDelete, Nth: 1 + op.FaultNth/2, Times: 1}
+			fv.Meta.AddFault(mf1)
+			fv.VMeta.AddFault(mf2)
+			err = core.DeleteRepo(op.Repo, fv.Stores)
+			if mf1.Hits+mf2.Hits > 0 {
+				stats.Count("delrepo_with_a_refused_delete", 1)
+				if err != nil {
+					stats.Count("delrepo_failed_and_rerun", 1)
+					if err = core.DeleteRepo(op.Repo, r.stores); err != nil {
+						return fmt.Errorf("%s failed after one refused delete and cannot be completed by running it again: %v", what, err)
+					}
+				}
+			}
+		} else {
+			err = core.DeleteRepo(op.Repo, r.stores)
+		}
 		if exists {
 			for _, k := range ownedBy(op.Repo) {
 				wantRemoved[k] = true
